@@ -33,6 +33,8 @@ TYPES = {
     "Parameter": torch.nn.Parameter, "Module": torch.nn.Module, "list": list, "tuple": tuple, "dict": dict, "set": set,
     "Path": pathlib.Path, "SA": ser_classes.SA, "SB": ser_classes.SB, "AutoSerialize": ser_classes.AutoSerialize,
     "Logger": logging.Logger, "Generator": np.random.Generator, "Linear": torch.nn.Linear,
+    # a second type whose class is ALSO called `Generator` (distinct types with one __name__/__qualname__)
+    "TorchGenerator": torch.Generator,
 }
 
 
@@ -56,7 +58,7 @@ def is_instance(v, t):
         if v[1] == "module":
             return t == "Module" or t == v[2]
         if v[1] == "other":
-            return False      # torch.Generator etc.: no type of the universe matches
+            return t == v[2]  # torch.Generator is observed as class "TorchGenerator"
     if tag == "nprng":
         return t == "Generator"
     if tag == "logger":
@@ -358,6 +360,12 @@ def run(ctx):
                 t = rng.choice(src)
                 if t not in types:
                     types.append(t)
+            if rng.chance(0.12):
+                # two distinct types with the same class name, in either order, next to whatever was drawn
+                pair = ["Generator", "TorchGenerator"]
+                if rng.chance(0.5):
+                    pair.reverse()
+                types = [t for t in types if t not in pair][:1] + pair
             ctx.dist[f"max_name_depth:{max([max(nd[k]) for k in names if k in nd] + [-1])}"] += 1
             ctx.dist[f"types_hit_nested:{sum(1 for t in types if t in nested_types)}"] += 1
             check_case(ctx, drv, recipe, names, types, rng.choice(["zip", "dir"]), i)
